@@ -154,6 +154,13 @@ def _templates():
     add("ffill", [S("v1", "cols", ["A"], cols=["f", "g"]), S("v2", "shift", ["v1"], f="ffill")])
     # --- loc / where / misc
     add("loc-slice-elemwise", [S("v1", "loc_slice", ["A"], lo=4, hi=None), S("v2", "cols", ["v1"], cols=["f", "g"]), S("v3", "binop_scalar", ["v2"], op="add", c=1, r=False)], tags=("loc",))
+    add("loc-slice-cols-3parts", [S("v1", "loc_slice", ["A"], lo=1, hi=6, cols=["g", "k"]), S("v2", "col", ["v1"], col="g")], tags=("loc",))
+    add("loc-slice-col-scalar", [S("v1", "loc_slice", ["A"], lo=1, hi=None, cols="f")], tags=("loc",))
+    add("nested-broadcast-chain", [S("v1", "col", ["A"], col="f"), S("v2", "col", ["A"], col="g"), S("v3", "col", ["A"], col="i"), S("v4", "reduce", ["v2"], how="sum", split_every=None),
+                                   S("v5", "reduce", ["v3"], how="sum", split_every=None), S("v6", "scalar_arith", ["v4"], op="add", c=1, r=False), S("v7", "scalar_binop", ["v6", "v5"], op="add"),
+                                   S("v8", "bcast_scalar", ["v1", "v7"], op="add", r=False)])
+    add("broadcast-two-reductions", [S("v1", "col", ["A"], col="f"), S("v2", "reduce", ["v1"], how="max", split_every=None), S("v3", "col", ["A"], col="g"), S("v4", "reduce", ["v3"], how="min", split_every=None),
+                                     S("v5", "bcast_scalar", ["v1", "v2"], op="sub", r=False), S("v6", "bcast_scalar", ["v5", "v4"], op="mul", r=True)])
     add("where-mask", [S("v1", "col", ["A"], col="f"), S("v2", "col", ["A"], col="b"), S("v3", "where", ["v1", "v2"], how="where", other=0)])
     add("str-accessor", [S("v1", "col", ["A"], col="s"), S("v2", "accessor", ["v1"], acc="str", f="upper")])
     add("index-of-filter", [S("v1", "filter_pred", ["A"], pred=P("gt", "f", 0)), S("v2", "index_of", ["v1"])])
@@ -182,7 +189,8 @@ def _expand(t, layout_a, index_a, layout_b, shuffle):
     steps = _order(pre, steps)
     tables = [table("t0", ROWS_A, index=index_a, layout=layout_a)]
     if any("t1" in s["in"] for s in steps):
-        tables.append(table("t1", ROWS_B, layout=layout_b))
+        # same index name on both inputs (pandas only keeps a name both inputs agree on)
+        tables.append(table("t1", ROWS_B, index={"kind": "range", "name": index_a.get("name")}, layout=layout_b))
     return {"tables": tables, "steps": steps, "out": [t["out"]], "config": {"shuffle": shuffle}, "template": t["name"]}
 
 
